@@ -473,6 +473,15 @@ void __wrap_exit(int code)
     if (__real_exit) __real_exit(code);
     _exit(code);
 }
+void mc_child_reset(void)
+{
+    int sigs[] = { SIGSEGV, SIGBUS, SIGFPE, SIGABRT, SIGILL, SIGXFSZ, SIGPROF, SIGALRM };
+    struct itimerval z = { {0, 0}, {0, 0} };
+    setitimer(ITIMER_PROF, &z, NULL); setitimer(ITIMER_REAL, &z, NULL);
+    for (unsigned i = 0; i < sizeof sigs / sizeof *sigs; i++) signal(sigs[i], SIG_DFL);
+    mc_protected = 0; g_allow_exit = 1; g_is_worker = 1;
+    alarm(60);                              /* a cell that never ends is ended by SIGALRM and seen as a signal by the parent */
+}
 static void install_handlers(void)
 {
     static char altstack[1 << 16];
